@@ -6,8 +6,8 @@ from props import C01, rwcommon as rc
 
 ID = "C10"
 PROP_FILE = "props/C10.v"
-COQ_TARGETS = ["props/C10.v", "model/FragLoop.v", "model/FragFun.v"]
-THEOREMS = ["C10_guard_branches_agree", "C10_erase_sound", "C10_frag_results", "C10_frag_plain", "C10_frag_stream", "C10_fun_results", "C10_fun_plain", "C10_fun_stream"]
+COQ_TARGETS = ["props/C10.v", "model/FragLoop.v", "model/FragFun.v", "model/FragProg.v"]
+THEOREMS = ["C10_guard_branches_agree", "C10_erase_sound", "C10_frag_results", "C10_frag_plain", "C10_frag_stream", "C10_fun_results", "C10_fun_plain", "C10_fun_stream", "C10_prog_results", "C10_prog_plain", "C10_prog_stream"]
 TRUSTED_BASE = C01.TRUSTED_BASE + [
     "model/FragLoop.v (while loops, the two guards of a loop, pristine copies, try / finally, evaluation under an arbitrary guard policy on fuel, the gated reference "
     "stream), tied by K-loop (tools/impl/c10_sem.py: real rewriter output tree with guard names canonicalised to (kind, loop), real runs whose handler activates / "
@@ -122,8 +122,8 @@ def run(ctx, model_ok):
         if not ok3:
             ctx.tie_broken("correspondence", "model/FragLoop.v does not build", out3)
         else:
-            extra_l = [dict(x) for x in getattr(ctx, "known_replays", []) + getattr(ctx, "fixed_replays", []) if "rules" in x and x.get("frag") != "fun"]
-            nl, okl, distl, viol = fragloop.check(ctx, rng, 60 if ctx.tier == "quick" else 800, extra_cases=extra_l)
+            extra_l = [dict(x) for x in getattr(ctx, "known_replays", []) + getattr(ctx, "fixed_replays", []) if "rules" in x and x.get("frag") not in ("fun", "prog")]
+            nl, okl, distl, viol = fragloop.check(ctx, rng, 40 if ctx.tier == "quick" else 600, extra_cases=extra_l)
             for f in viol[:2]:
                 f.update({"signature": "unlisted", "kind_": "oracle", "harness": "c10_sem.py"})
                 r["failures"].append(f)
@@ -134,7 +134,10 @@ def run(ctx, model_ok):
             r["distribution"]["k_loop_detail"] = distl
         # functions and function guards on the fragment: model/FragFun.v (K-fun)
         from props import fragfun
-        fragfun.run_into(ctx, rng, r, 40 if ctx.tier == "quick" else 600)
+        fragfun.run_into(ctx, rng, r, 30 if ctx.tier == "quick" else 500)
+        # loops and functions together: model/FragProg.v (K-prog)
+        from props import fragprog
+        fragprog.run_into(ctx, rng, r, 40 if ctx.tier == "quick" else 600)
     r["evaluations"] += len(ls)
     r["distribution"]["loop_silence_programs"] = len(ls)
     r["distribution"]["loop_guards_activated"] = nsil
@@ -142,7 +145,7 @@ def run(ctx, model_ok):
     r["distribution"]["silence_templates"] = len(sc)
     r["distribution"]["silence_templates_ok"] = ok
     r["rule"] += ("; C10: every case subscribes to all bracket events (which carry the guard name) plus 35% of the direct events, with a guard schedule "
-                  "(which seen guard, activate/deactivate) consumed at every bracket event; plus 5 silence templates (function guard activated at invocation k) and 60 generated programs in which every loop guard is activated at its first hand-out (no event may then come from inside that loop body); K-loop: 60 generated programs of the loop fragment (ints / bools / None, 1-2 levels of while loops with else clauses, ~45% raising) x event "
+                  "(which seen guard, activate/deactivate) consumed at every bracket event; plus 5 silence templates (function guard activated at invocation k) and 60 generated programs in which every loop guard is activated at its first hand-out (no event may then come from inside that loop body); K-loop: 40 generated programs of the loop fragment (ints / bools / None, 1-2 levels of while loops with else clauses, ~45% raising) x event "
                   "subsets incl. the three loop events x global guards on 75% x 0-4 guard rules (at the k-th delivered event switch the test / body guard of some loop off or on): tree, "
                   "exception, bindings and stream vs model/FragLoop.v; the stream vs the gated reference is the oracle")
     return r
@@ -160,6 +163,9 @@ def replay(ctx, rep):
     if case.get("frag") == "fun":
         from props import fragfun
         return fragfun.replay_case(case)
+    if case.get("frag") == "prog":
+        from props import fragprog
+        return fragprog.replay_case(case)
     if "rules" in case:
         from props import fragloop
 
